@@ -26,6 +26,9 @@ CHECKS = {
  "C08": dict(level="model_checking", technique="exhaustive enumeration of prefix/body/terminator/cardinality/companion shapes; per spec explicit-state BFS over the product (real state machine) x (reference with first-complete-match semantics) plus all strings up to a bound through the real driver",
    text="Every specification of the enumerated non-greedy shapes is searched completely in product with the reference: a rule containing *? or +? ends at its first complete match, greedy rules keep the longest viable run. Where the two clauses conflict (non-greedy rule complete while a greedy rule can extend) the explorer follows the real machine and only requires that what is emitted matches the run exactly; those decisions are counted.",
    note="Trusted: internal/lexref. The ambiguity rule above is the check's reading of a situation the statement leaves open.", ref="DESIGN.md section C08"),
+ "C07": dict(level="model_checking", technique="exhaustive enumeration of small mode graphs with every action placement and order; per spec explicit-state BFS over the product (real state machine) x (reference mode-stack machine) bounded by stack depth, plus all strings up to a bound through the real driver",
+   text="Every enumerated mode graph is searched in product with the reference machine: after each rule match the emitted event, the current mode and the whole mode stack must be what the documented stack discipline defines, with every written action taking effect in any order. Token texts (including accumulated fragment text) are compared on all short strings through the real simplelexer.",
+   note="Trusted: internal/lx RefM. The mode stack makes the product infinite; it is explored to depth D and deeper pushes are counted as closed branches. Nothing is compared after an unmatched @pop_mode.", ref="DESIGN.md section C07"),
 }
 
 NA_REASON = "check not built yet (work in progress; see DESIGN.md for the plan)"
